@@ -93,6 +93,9 @@ func c18Receivers(tier string) []c18Recv {
 		{mtList(mtFloat), []*mval{vL(), vL(vF(1.5)), vL(vF(2.5), vF(1.5), vF(2.0))}},
 		{mtList(mtList(mtInt)), []*mval{vL(), vL(vL()), vL(vL(vI(1)), vL(), vL(vI(1), vI(2)))}},
 		{mtList(mtRange), []*mval{vL(), vL(vRange(0, 2))}},
+		{mtList(mtBool), []*mval{vL(), vL(vB(true)), vL(vB(true), vB(false), vB(true))}},
+		{mtList(mtNull), []*mval{vL(), vL(vNull(), vNull())}},
+		{mtList(mtObj("a", mtInt)), []*mval{vL(), vL(vO("a", vI(2)), vO("a", vI(1)))}},
 		{mtAnyObj, []*mval{vAO(), vAO("a", vI(1)), vAO("a", vI(1), "b", vS("x"), "c", vL(vI(1)))}},
 		{mtObj("a", mtInt), []*mval{vO("a", vI(1))}},
 		{mtObj("a", mtInt, "b", mtStr), []*mval{vO("a", vI(1), "b", vS("x"))}},
@@ -101,7 +104,6 @@ func c18Receivers(tier string) []c18Recv {
 	}
 	if tier == "thorough" {
 		rs = append(rs,
-			c18Recv{mtList(mtBool), []*mval{vL(), vL(vB(true)), vL(vB(true), vB(false), vB(true))}},
 			c18Recv{mtList(mtOpt(mtInt)), []*mval{vL(), vL(vNone()), vL(vSome(vI(1)), vNone(), vSome(vI(2)))}},
 			c18Recv{mtList(mtAnyObj), []*mval{vL(), vL(vAO("a", vI(1)))}},
 			c18Recv{mtOpt(mtList(mtInt)), []*mval{vNone(), vSome(vL()), vSome(vL(vI(1)))}},
